@@ -99,3 +99,6 @@ pub mod preprocessing;
 pub mod svm;
 /// Supervised tree-based learning methods
 pub mod tree;
+/// Hooks for the external verification harness (only with `--cfg smartcore_verif`)
+#[cfg(smartcore_verif)]
+pub mod verif_hooks;
